@@ -102,6 +102,13 @@ def cases(tier, seed):
         out.append(dict(src=qasm2_program(rnd), family="random-qasm2"))
     for _ in range(n // 5):
         out.append(dict(src=qasm2_program(rnd, with_phase_gates=True), family="random-qasm2-with-rxx-rzz"))
+    # self-contained programs: no include, only the built-in U and CX and gates defined from them
+    for qn, cn in (("q", "c"), ("q_data", "c_out"), ("Q0", "meas_1"), ("a_b_c", "bits3")):
+        for body in ("mygate %s[0], %s[1];\nmeasure %s -> %s;" % (qn, qn, qn, cn),
+                     "U(0.5, 0.25, 0.125) %s[1];\nCX %s[1], %s[0];\nbarrier %s;\nmeasure %s[0] -> %s[1];\nif(%s==2) mygate %s[1], %s[0];" % (qn, qn, qn, qn, qn, cn, cn, qn, qn),
+                     "mygate %s[1], %s[0];\nreset %s[0];\nCX %s[0], %s[1];" % (qn, qn, qn, qn, qn)):
+            out.append(dict(src="OPENQASM 2.0;\nqreg %s[2];\ncreg %s[2];\ngate mygate a, b { U(0.1, 0.2, 0.3) a; CX a, b; U(0, 0, 0.7) b; }\n%s\n" % (qn, cn, body),
+                            family="no-include"))
     # the short version header is a version-2 program as well
     for k, c in enumerate(list(out)):
         if k % 4 == 0:
